@@ -28,6 +28,22 @@ SplitDots(s) == IF s = <<>> THEN <<>>
                      IF D = {} THEN <<s>>
                      ELSE <<SubSeq(s, 1, Min(D) - 1)>> \o SplitDots(SubSeq(s, Min(D) + 1, Len(s)))
 
+\* strings.ToLower on the bytes of a UTF-8 text: ASCII letters, and - of the two-byte letters - the Latin-1
+\* supplement (U+00C0..U+00DE without the multiplication sign) and the basic Cyrillic block (U+0400..U+042F);
+\* other multi-byte letters are outside the alphabet of the model
+\* (written position-wise, without recursion: TLC evaluates it on URLs of several thousand bytes)
+LowerText(s) ==
+    [k \in 1..Len(s) |->
+        LET c == s[k]
+            p == IF k > 1 THEN s[k - 1] ELSE 0
+            n == IF k < Len(s) THEN s[k + 1] ELSE 0
+        IN IF c = 208 /\ (n \in 160..175 \/ n \in 128..143) THEN 209                 \* lead byte of U+0420..U+042F, U+0400..U+040F
+           ELSE IF c \in 128..191 /\ p = 195 /\ c \in (128..158) \ {151} THEN c + 32   \* U+00C0..U+00DE
+           ELSE IF c \in 128..191 /\ p = 208 /\ c \in 144..159 THEN c + 32             \* U+0410..U+041F
+           ELSE IF c \in 128..191 /\ p = 208 /\ c \in 160..175 THEN c - 32             \* U+0420..U+042F
+           ELSE IF c \in 128..191 /\ p = 208 /\ c \in 128..143 THEN c + 16             \* U+0400..U+040F
+           ELSE Lower(c)]
+
 \* fields of NewRequest(url, source) given the PSL answers for both hosts
 Fields(url, src, hostPsl, srcPsl) ==
     LET u  == Cap(url)
@@ -36,7 +52,7 @@ Fields(url, src, hostPsl, srcPsl) ==
         sh == SplitDots(HostOf(s))
         d  == DomainOf(h, hostPsl)
         sd == DomainOf(sh, srcPsl)
-    IN [url |-> u, lower |-> LowerSeq(u), host |-> h, domain |-> d, srcHost |-> sh, srcDomain |-> sd,
+    IN [url |-> u, lower |-> LowerText(u), host |-> h, domain |-> d, srcHost |-> sh, srcDomain |-> sd,
         thirdParty |-> (sd # <<>> /\ sd # d)]
 \* fields of a hostname request
 HostFields(h, psl) == [url |-> Str("http://") \o JoinDots(h), host |-> h, domain |-> DomainOf(h, psl), thirdParty |-> FALSE]
